@@ -4,9 +4,13 @@ cd /verif
 python3 - <<'PY' > .work/seed_cmds.txt
 import json
 for e in json.load(open('/verif/seeded/plan.json')):
-    if e["only"]:
-        print(e["id"], e["property"], e["only"])
+    if e.get("tier") == "thorough":
+        continue
+    if e.get("e3"):
+        print(e["id"], e["property"], "--e3-only")
+    elif e["only"]:
+        print(e["id"], e["property"], "--only " + e["only"])
 PY
-while read id prop only; do
-  ./seed_test.sh $id $prop --only "$only"
+while read id prop flag arg; do
+  ./seed_test.sh $id $prop $flag $arg
 done < .work/seed_cmds.txt
